@@ -178,7 +178,14 @@ def _havoc(interp, frame, spec, modified_names, tag):
             interp.st.assume(n >= 0)
             ys.length = n
             continue
-        from .api import HavocBy
+        from .api import HavocBy, PDictOf
+        if isinstance(ty, PDictOf):
+            parts = name.split('.')
+            obj = _lookup_name(frame, parts[0])
+            for a in parts[1:]:
+                obj = interp.getattr(obj, a)
+            obj.havoc(interp, tag)
+            continue
         if isinstance(ty, HavocBy):
             # an object changed in place by the body, with its own way of becoming arbitrary
             parts = name.split('.')
@@ -259,7 +266,14 @@ class LoopGuard:
                     cur = None
             else:
                 cur = obj
-            if name.startswith('@') or isinstance(ty, (MListOf, HavocBy)) or isinstance(cur, (list, dict)):
+            from .api import PDictOf
+            from .pdict import PDict
+            if isinstance(cur, PDict):
+                for v in cur.values.values():
+                    if v is not None:
+                        self.allowed.add((id(v), '*'))
+                        self.keep.append(v)
+            if name.startswith('@') or isinstance(ty, (MListOf, HavocBy, PDictOf)) or isinstance(cur, (list, dict)):
                 self.allowed.add((id(cur), '*'))
                 self.keep.append(cur)
 
